@@ -92,6 +92,7 @@ type DefaultClientDispatcher struct {
 	pendingRequestState ClientState
 	network             ws.Client
 	mutex               sync.RWMutex
+	completionMutex     sync.Mutex
 	onRequestCancel     func(requestID string, request ocpp.Request, err *ocpp.Error)
 	timer               *time.Timer
 	paused              bool
@@ -297,18 +298,24 @@ func (d *DefaultClientDispatcher) Resume() {
 }
 
 func (d *DefaultClientDispatcher) CompleteRequest(requestId string) {
+	// The reader (a response) and the message pump (a timeout, a failed write) may complete the same request at the
+	// same time: looking at the head of the queue and popping it must be one step, or the second pop takes the next request
+	d.completionMutex.Lock()
 	el := d.requestQueue.Peek()
 	if el == nil {
+		d.completionMutex.Unlock()
 		log.Errorf("attempting to pop front of queue, but queue is empty")
 		return
 	}
 	bundle, _ := el.(RequestBundle)
 	if bundle.Call.UniqueId != requestId {
+		d.completionMutex.Unlock()
 		log.Errorf("internal state mismatch: received response for %v but expected response for %v", requestId, bundle.Call.UniqueId)
 		return
 	}
 	d.requestQueue.Pop()
 	d.pendingRequestState.DeletePendingRequest(requestId)
+	d.completionMutex.Unlock()
 	log.Debugf("removed request %v from front of queue", bundle.Call.UniqueId)
 	// Signal that next message in queue may be sent
 	d.signalReadyForDispatch()
@@ -407,6 +414,7 @@ type DefaultServerDispatcher struct {
 	onRequestCancel     CanceledRequestHandler
 	network             ws.Server
 	mutex               sync.RWMutex
+	completionMutex     sync.Mutex
 }
 
 // Handler function to be invoked when a request gets canceled (either due to timeout or to other external factors).
@@ -696,19 +704,25 @@ func (d *DefaultServerDispatcher) CompleteRequest(clientID string, requestID str
 		log.Errorf("attempting to complete request for client %v, but no matching queue found", clientID)
 		return
 	}
+	// The reader (a response) and the message pump (a timeout, a failed write) may complete the same request at the
+	// same time: looking at the head of the queue and popping it must be one step, or the second pop takes the next request
+	d.completionMutex.Lock()
 	el := q.Peek()
 	if el == nil {
+		d.completionMutex.Unlock()
 		log.Errorf("attempting to pop front of queue, but queue is empty")
 		return
 	}
 	bundle, _ := el.(RequestBundle)
 	callID := bundle.Call.GetUniqueId()
 	if callID != requestID {
+		d.completionMutex.Unlock()
 		log.Errorf("internal state mismatch: processing response for %v but expected response for %v", requestID, callID)
 		return
 	}
 	q.Pop()
 	d.pendingRequestState.DeletePendingRequest(clientID, requestID)
+	d.completionMutex.Unlock()
 	log.Debugf("completed request %s for %s", callID, clientID)
 	// Signal that next message in queue may be sent
 	d.readyForDispatch <- clientID
